@@ -332,6 +332,14 @@ def step (ss : Sess) (line : String) : Sess × String :=
       let armed := st.objs.filter (fun o => o.start.isSome) |>.map (fun o => toString o.id)
       ({ ss with tmr := st }, s!"{"; ".intercalate (news.map showO)} | disp {o2s st.dispLast} dec {o2s st.decLast} tq [{",".intercalate (st.timerQ.map toString)}] armed [{",".intercalate armed}]")
     | none => (ss, "bad-op")
+  -- universal fallback decoder: universal <tolnum> <tolden> <ints>
+  | "universal" :: tn :: td :: ws =>
+    match tn.toNat?, td.toNat?, parseInts ws with
+    | some tn, some td, some data =>
+      match Universal.decode data (mkRat tn td) with
+      | .ok c => (ss, s!"ok {c}")
+      | .error e => (ss, "err " ++ e.name)
+    | _, _, _ => (ss, "bad-op")
   -- pronto
   | "pronto_enc" :: freq :: kind :: ws =>
     match freq.toInt? with
